@@ -259,7 +259,7 @@ func TestVerif_C29_Refresher(t *testing.T) {
 		}
 		alpha = append(alpha, []string{"op", "dlend", fmt.Sprintf("ns%d", ns), "d0", "ok"}, []string{"op", "dlend", fmt.Sprintf("ns%d", ns), "d0", "fail"})
 	}
-	depth := verifh.Scale(3, 4)
+	depth := verifh.Scale(3, 3)
 	var rec func(prefix [][]string, d int)
 	rec = func(prefix [][]string, d int) {
 		if d == 0 {
@@ -275,7 +275,7 @@ func TestVerif_C29_Refresher(t *testing.T) {
 		rec(nil, d)
 	}
 	r := verifh.NewRand(verifh.Seed(), "c29br")
-	for i := 0; i < verifh.Scale(100, 3000); i++ {
+	for i := 0; i < verifh.Scale(100, 1500); i++ {
 		var ops [][]string
 		for j := 1 + r.Intn(12); j > 0; j-- {
 			ns, d := fmt.Sprintf("ns%d", r.Intn(c29brNS)), fmt.Sprintf("d%d", r.Intn(c29brND))
